@@ -21,7 +21,9 @@ EXPLANATION = (
     "- the extended rcode is committed into the record that is actually emitted; (G2) Message::read and "
     "MessageRequest::read_with_queries read the three record sections in header order with the count of their own section, "
     "is_additional=true only for the last, and both merge the EDNS high rcode bits into the header rcode; read_records files "
-    "OPT and TSIG/SIG(0) out of the additionals exactly when is_additional.")
+    "OPT and TSIG/SIG(0) out of the additionals exactly when is_additional; (Q2) no emit/read/read_data function of a message part or RDATA "
+    "type (cone inside rr::rdata, dnssec::rdata, op, rr::record*) calls a reordering, filtering, truncating or re-casing operation "
+    "(sort*, dedup*, retain, reverse, filter, take/skip, to_*case, Vec::remove/insert...), with one reviewed exception (ECS address prefix).")
 NOT_DECIDED = ("Equality of values after a round trip (case preservation, option ordering, >120 compressed names, pointer offsets >= 0x3FFF, "
                "per-type field order and width agreement between emit and read_data - not linearised by this checker); which of the two "
                "flag octets a mask is applied to.")
@@ -264,7 +266,50 @@ def readers(cx):
         cx.check('C02.G2', len(st) == 1 and 'arg2' in st[0].term and 'low(arg1.response_code)' in st[0].term, m.path, 'store', 'rcode=from(high,low)', '; '.join(s.term for s in st))
 
 
+TRANSFORM = re.compile(r'(^|::)(sort\w*|dedup\w*|reverse|retain\w*|rev|to_lowercase|to_ascii_lowercase|make_ascii_lowercase|to_uppercase|to_ascii_uppercase|'
+                       r'make_ascii_uppercase|truncate|drain|swap\w*|rotate\w*|filter|filter_map|skip\w*|take|take_while|step_by)$|'
+                       r'(Vec|VecDeque|String)(<[^>]*>)?::(pop|remove|insert)$')
+CODEC_SCOPE = re.compile(r'hickory_proto::(rr::rdata|dnssec::rdata|op::(edns|query|header|message)|rr::(record|record_data|record_type_set|dns_class|record_type|rr_key))')
+# (function, callee) -> reason.  Anything else that reorders, filters or re-cases data inside a codec function is a violation:
+# the value written must be the value held, and the value built must be the value read.
+TRANSFORM_OK = {
+    ("<hickory_proto::rr::rdata::opt::ClientSubnet as hickory_proto::serialize::binary::BinDecodable<'a>>::read", 'Iterator::take'):
+        (2, 'RFC 7871 6: the ADDRESS field carries only ceil(prefix/8) octets; the reader takes that many and pads, the writer emits that many'),
+}
+
+
+def pure_codec(cx):
+    prog = cx.prog
+    from api import cone
+    roots = [p for p in prog.fns if re.search(r"(BinEncodable>::emit|BinDecodable<'\w+>>::read|RecordDataDecodable<'\w+>>::read_data)$", p)
+             and p.startswith('<hickory_proto') and CODEC_SCOPE.search(p)]
+    cx.floor('C02.Q2', len(roots), 100, 'codec entry points (emit / read / read_data impls of message parts and RDATA types)')
+    cn = cone(prog, roots, cha_ok=lambda c, t: False, stop=lambda p: not CODEC_SCOPE.search(p))
+    cn = {p for p in cn if CODEC_SCOPE.search(p) and '::tests::' not in p and '::test::' not in p}
+    cx.floor('C02.Q2', len(cn), 250, 'functions in the codec cone')
+    used = defaultdict(int)
+    n = 0
+    for p in sorted(cn):
+        f = prog.fns[p]
+        for bi, c, t in prog.calls_of(f):
+            if 'op' in c:
+                continue
+            nm = core.strip_generics(c.get('res') or c['def'])
+            if not TRANSFORM.search(nm):
+                continue
+            n += 1
+            key = (p, '::'.join(nm.split('::')[-2:]))
+            used[key] += 1
+            ok = key in TRANSFORM_OK and used[key] <= TRANSFORM_OK[key][0]
+            cx.check('C02.Q2', ok, p, f'call:{key[1]}#{used[key] - 1}', 'codec-neither-reorders-filters-nor-recases',
+                     'a wire encoder/decoder of a message part transforms its data (sort/dedup/filter/case/truncate): what is written is no longer what is held, '
+                     'so decode(encode(m)) != m for values the transformation changes', f.loc(bi),
+                     sample={'fn': shorten(p + '(')[:-1], 'callee': key[1], 'allowed': TRANSFORM_OK.get(key, ('', ''))[1][:80], 'holds': ok})
+    cx.notes.append(f'codec cone: {len(cn)} functions from {len(roots)} entry points; {n} data-transforming call(s), all reviewed')
+
+
 def run(cx):
+    pure_codec(cx)
     variant_table(cx, 'C02.T1', 'RData', P + 'rr::record_data::RData::read', r'^<hickory_proto::rr::record_data::RData as hickory_proto::serialize::binary::BinEncodable>::emit$',
                   P + 'rr::record_data::RData::record_type', 26)
     variant_table(cx, 'C02.T1', 'DNSSECRData', P + 'dnssec::rdata::DNSSECRData::read', r'^hickory_proto::dnssec::rdata::DNSSECRData::emit$',
